@@ -22,6 +22,10 @@ from .c03 import sub_function
 
 WP = '_wcparse'
 FUNCS = ('translate', 'compile_pattern')
+# callees that are the vocabulary of these rules stay calls; any other package function met on the way (a helper somebody
+# extracted) is followed, so that the tables do not depend on how the code is cut into functions
+VOCAB = {f'{WP}:{n}' for n in ('translate', 'compile_pattern', 'expand', 'iter_patterns', 'is_negative', 'is_unix_style', '_compile',
+                               'expand_braces', 'expand_tilde', 'split', 'get_case', 'is_case_sensitive')} | {'util:norm_pattern'}
 
 
 def _args() -> dict[str, Any]:
@@ -35,9 +39,9 @@ def tables(repo: Repo, fn: str) -> tuple[list[Path], list[Path]]:
         cut = next((i for i, st in enumerate(body) if any(isinstance(x, ast.For) for x in ast.walk(st))), None)
         if cut is None:
             raise AnalysisError(f'{fn}: expansion loop not found')
-        ev1 = SymEval(repo, inline_only={f'{WP}:no_negate_flags'}, max_paths=20000)
+        ev1 = SymEval(repo, inline=True, no_inline=VOCAB, max_paths=20000)
         t1 = ev1.tabulate(sub_function(fi, body[:cut + 1], 'through-loop'), _args())
-        ev2 = SymEval(repo, inline_only={f'{WP}:no_negate_flags'}, max_paths=20000, loop_mode='skip')
+        ev2 = SymEval(repo, inline=True, no_inline=VOCAB, max_paths=20000, loop_mode='skip')
         t2 = ev2.tabulate(fi, _args())
         return t1, t2
     return cached(repo, f'pipeline:{fn}', build)
@@ -350,9 +354,9 @@ def _signature(repo: Repo, fn: str) -> tuple[set, int]:
         cut = next((i for i, st in enumerate(body) if any(isinstance(x, ast.For) for x in ast.walk(st))), None)
         if cut is None:
             raise AnalysisError(f'{fn}: expansion loop not found')
-        ev1 = SymEval(repo, inline_only={f'{WP}:no_negate_flags'}, max_paths=20000)
+        ev1 = SymEval(repo, inline=True, no_inline=VOCAB, max_paths=20000)
         t1 = ev1.tabulate(sub_function(fi, body[:cut + 1], 'through-loop'), _args())
-        ev2 = SymEval(repo, inline_only={f'{WP}:no_negate_flags'}, max_paths=20000, loop_mode='skip')
+        ev2 = SymEval(repo, inline=True, no_inline=VOCAB, max_paths=20000, loop_mode='skip')
         t2 = ev2.tabulate(fi, _args())
     finally:
         env.update(saved)
@@ -401,7 +405,9 @@ def rule_pipeline_siblings(ctx: Ctx, rule: str) -> None:
     b, nb = _signature(repo, 'compile_pattern')
     only_a = sorted(a - b, key=repr)
     only_b = sorted(b - a, key=repr)
-    ok = not only_a and not only_b and na >= 200
+    if na < 100 or nb < 100:
+        raise AnalysisError(f'{rule}: sibling tables too small ({na}, {nb} paths)')
+    ok = not only_a and not only_b
     det = 'identical'
     if not ok:
         def first_diff() -> str:
